@@ -208,9 +208,12 @@ def absorb(v, out, scen):
             for i, line in enumerate(f):
                 if i in need:
                     lines[i] = json.loads(line)
-    by_sig = {}
-    for idx, sig, det in sorted(fails, key=lambda t: (t[1], t[0])):
+    by_sig, first, rest = {}, [], []
+    for idx, sig, det in sorted(fails, key=lambda t: (t[1], t[2] is None or "observed" not in t[2], t[0])):
         by_sig[sig] = by_sig.get(sig, 0) + 1
+        (first if by_sig[sig] == 1 else rest).append((idx, sig, det))
+    # every distinct signature gets its replay file before the second scenario of any signature does
+    for idx, sig, det in first + rest:
         v.violation(sig, dict(engine=ENGINE, scenario=lines.get(idx), detail=det))
     # the replay child is only a supervisor: if IT dies or hangs the harness is at fault
     if out.crashes or out.timeouts:
